@@ -61,6 +61,9 @@ func modes() []mode {
 		ms = append(ms, mode{name: fmt.Sprintf("backend-503-text-%dKiB", pad>>10), backend: true, status: 503, json: false, pad: pad})
 	}
 	ms = append(ms, mode{name: "malformed-json-200"})
+	// every endpoint has refused six requests in a row and is still listed healthy: the olla engine's per-endpoint
+	// breakers are open and every candidate is skipped without being contacted - that, too, is a failure to report
+	ms = append(ms, mode{name: "refuse-until-breakers-open"})
 	// a 200 whose body is JSON but not a completion (model still loading, empty choices, ...): on the translated route
 	// there is nothing to translate, which is a failure the client must be told about
 	for i := range untransformable {
@@ -250,6 +253,18 @@ func runConfig(engine string, rt route, k int, rg routing) {
 				}
 			case "unknown-model":
 				model = "no-such-model"
+			case "refuse-until-breakers-open":
+				for _, b := range bes {
+					b.Refuse(true)
+				}
+				for i := 0; i < 6; i++ {
+					stack.Do(o.Addr, &stack.Req{Method: "POST", Target: rt.target, Body: reqBody(rt, model, false), Timeout: horizon,
+						Headers: [][2]string{{"Content-Type", "application/json"}, {"anthropic-version", "2023-06-01"}}})
+					for _, b := range bes {
+						o.SetStatus(b.Name, "healthy")
+					}
+				}
+				failures = 3 // fresh olla for the next mode
 			case "refuse", "refuse-again": // refuse-again: the previous request's failed attempts have marked every endpoint offline
 				for _, b := range bes {
 					b.Refuse(true)
